@@ -418,8 +418,18 @@ def coerce_hint_any(hint: Hint) -> Hint:
         #FIXME: [SPEED] Globalize the
         #_hint_repr_to_hint.cache_or_get_cached_value() bound method and call
         #that globalized bound method here instead as a negligible speedup.
-        hint = _hint_repr_to_hint.cache_or_get_cached_value(  # type: ignore[return-value]
+        hint_cached = _hint_repr_to_hint.cache_or_get_cached_value(
             key=get_hint_repr(hint), value=hint)
+
+        # If the previously cached hint sharing this representation is also
+        # equal to this hint, replace this copy by that cached hint. If these
+        # hints are unequal instead, two distinct hints merely share the same
+        # representation (e.g., "list[K]" subscripted by two distinct classes
+        # both named "K", as commonly occurs when a class is redefined).
+        # Replacing this hint by that cached hint would then type-check
+        # against the wrong class. In that case, preserve this hint as is.
+        if hint_cached is hint or hint_cached == hint:
+            hint = hint_cached  # type: ignore[assignment]
     # Else, this hint is (hopefully) self-caching.
 
     # ..................{ RETURN                             }..................
